@@ -628,10 +628,15 @@ pub fn spawn_with_mailbox_capacity<T: Actor + 'static>(
     #[cfg(rsactor_verif)]
     crate::__verif::emit("Spawn", actor_id.id, mailbox_capacity as u64, 0);
 
-    let lifecycle = crate::actor::run_actor_lifecycle(args, actor_ref.clone(), mailbox_rx, terminate_rx);
+    let join_handle = tokio::spawn(crate::actor::run_actor_lifecycle(
+        args,
+        actor_ref.clone(),
+        mailbox_rx,
+        terminate_rx,
+    ));
+
     #[cfg(rsactor_verif)]
-    let lifecycle = crate::__verif::lifecycle(actor_id.id, lifecycle);
-    let join_handle = tokio::spawn(lifecycle);
+    let join_handle = crate::__verif::watch(actor_id.id, join_handle);
 
     (actor_ref, join_handle)
 }
@@ -657,7 +662,6 @@ pub fn __verif_wait_for_edges() -> Vec<(u64, u64)> {
 #[cfg(rsactor_verif)]
 #[doc(hidden)]
 pub mod __verif {
-    use std::future::Future;
     use std::io::Write;
     use std::sync::{Mutex, OnceLock};
 
@@ -782,24 +786,42 @@ pub mod __verif {
         }
     }
 
-    /// the whole lifecycle task: logs the ActorResult it produces
-    pub async fn lifecycle<T: crate::Actor>(id: u64, fut: impl Future<Output = crate::ActorResult<T>>) -> crate::ActorResult<T> {
-        let r = fut.await;
-        let (kind, phase, killed) = match &r {
-            crate::ActorResult::Completed { killed, .. } => (0, 0, *killed),
-            crate::ActorResult::Failed { phase, killed, .. } => (
-                1,
-                match phase {
-                    crate::FailurePhase::OnStart => 1,
-                    crate::FailurePhase::OnRun => 2,
-                    crate::FailurePhase::OnStop => 3,
-                    crate::FailurePhase::OnRunThenOnStop => 4,
-                },
-                *killed,
-            ),
-        };
-        emit("Result", id, kind * 10 + phase, killed as u64);
-        r
+    fn active() -> bool {
+        matches!(SINK.get(), Some(Some(_))) || (SINK.get().is_none() && std::env::var_os("RSACTOR_VERIF_TRACE").is_some())
+    }
+
+    /// the actor's JoinHandle: when the log is active it is replaced by the handle of a task that awaits the original,
+    /// logs the ActorResult and hands it on (a panic of the actor task is re-raised)
+    pub fn watch<T: crate::Actor>(
+        id: u64,
+        inner: tokio::task::JoinHandle<crate::ActorResult<T>>,
+    ) -> tokio::task::JoinHandle<crate::ActorResult<T>> {
+        if !active() {
+            return inner;
+        }
+        tokio::spawn(async move {
+            match inner.await {
+                Ok(r) => {
+                    let (kind, phase, killed) = match &r {
+                        crate::ActorResult::Completed { killed, .. } => (0, 0, *killed),
+                        crate::ActorResult::Failed { phase, killed, .. } => (
+                            1,
+                            match phase {
+                                crate::FailurePhase::OnStart => 1,
+                                crate::FailurePhase::OnRun => 2,
+                                crate::FailurePhase::OnStop => 3,
+                                crate::FailurePhase::OnRunThenOnStop => 4,
+                            },
+                            *killed,
+                        ),
+                    };
+                    emit("Result", id, kind * 10 + phase, killed as u64);
+                    r
+                }
+                Err(e) if e.is_panic() => std::panic::resume_unwind(e.into_panic()),
+                Err(_) => std::future::pending().await,
+            }
+        })
     }
 
     /// kill(): KillStart before the signal is sent, KillDone when the call returns
